@@ -419,24 +419,45 @@ func (e *Engine) ensureInit(pkg *ssa.Package) {
 		e.h = newHarnessRun("init")
 	}
 	scratch := e.newState()
-	func() {
-		defer func() {
-			if r := recover(); r != nil {
-				if ee, ok := r.(encError); ok {
+	e.pushFrame(scratch, initFn, nil, nil, nil)
+	for attempt := 0; attempt < 10000; attempt++ {
+		finished := func() (done bool) {
+			defer func() {
+				if r := recover(); r != nil {
+					ee, ok := r.(encError)
+					if !ok {
+						panic(r)
+					}
+					// a call made by the initialiser hit unsupported code somewhere below: drop the
+					// callee frames, poison the call's result and go on with the next statement
+					if len(scratch.frames) > 1 {
+						scratch.frames = scratch.frames[:1]
+						f := scratch.frames[0]
+						scratch.status = Running
+						if f.ip > 0 {
+							if v, isV := f.block.Instrs[f.ip-1].(ssa.Value); isV {
+								f.locals[f.info.index[v]] = e.poisonFor(v.Type(), ee.msg)
+							}
+						}
+						done = false
+						return
+					}
 					if e.trace {
 						fmt.Printf("init of %s incomplete: %s\n", pkg.Pkg.Path(), ee.msg)
 					}
-					return
+					done = true
 				}
-				panic(r)
+			}()
+			finals := e.execUntil(scratch, nil)
+			for _, f := range finals {
+				scratch = f
 			}
+			return true
 		}()
-		e.pushFrame(scratch, initFn, nil, nil, nil)
-		finals := e.execUntil(scratch, nil)
-		for _, f := range finals {
-			scratch = f
+		if finished {
+			break
 		}
-	}()
+	}
 	for o, b := range scratch.mem {
 		e.baseMem[o] = &cellBlock{cells: b.cells, owner: -1}
 	}
